@@ -135,3 +135,45 @@ func VerifGenInlineNestedAllOf() {
 	}
 	vAssert(back.Multi.C == n.Multi.C, "a member declared next to an inner composition is lost on encoding")
 }
+
+func init() { vRegister("VerifGenAbsentFormatted", VerifGenAbsentFormatted) }
+
+// a document that leaves optional formatted members out: decoding and encoding may drop zero
+// values but must not add members the document did not have
+func VerifGenAbsentFormatted() {
+	name := vBytes("name", 2)
+	vAssume(vAlnum(name))
+	withSpan := vBool2("span")
+	doc := `{"name":"` + name + `"}`
+	if withSpan {
+		doc = `{"name":"` + name + `","span":"1h30m0s"}`
+	}
+	var s Stamp
+	err := json.Unmarshal([]byte(doc), &s)
+	vAssert(err == nil, "a document without its optional formatted members is refused")
+	if err != nil {
+		return
+	}
+	txt, err := json.Marshal(s)
+	vCover("absent-formatted")
+	vAssert(err == nil, "a decoded document cannot be encoded")
+	if err != nil {
+		return
+	}
+	var generic map[string]json.RawMessage
+	err = json.Unmarshal(txt, &generic)
+	vAssert(err == nil, "the encoded text is not an object")
+	if err != nil {
+		return
+	}
+	_, hasName := generic["name"]
+	vAssert(hasName, "a required member is not written")
+	_, hasSpan := generic["span"]
+	vAssert(hasSpan == withSpan, "an optional duration is added or lost")
+	_, hasBorn := generic["born"]
+	_, hasAt := generic["at"]
+	if vKnown("C05-G16", hasBorn || hasAt) {
+		return
+	}
+	vAssert(!hasBorn && !hasAt, "a member the document did not have is added on encoding")
+}
